@@ -84,7 +84,8 @@ class C06(Property):
                        "probe.corpus-label", "probe.generated-label",
                        "probe.outcome-ParseError", "probe.outcome-LexerError",
                        "probe.outcome-ok-after-fault",
-                       "probe.extended-vocabulary"]
+                       "probe.extended-vocabulary",
+                       "probe.cut-inside-multibyte-character"]
 
     def check(self, out, case, nontrivial=False):
         config = case["config"]
@@ -94,7 +95,12 @@ class C06(Property):
         if plan is not None:
             st = chan.ChanStats()
             lexer_fn = chan.make_lexer_fn(plan, st)
-        o = dialects.load(config, case["text"], lexer_fn)
+        if "bytes_hex" in case:
+            # the label handed over as bytes (a file cut at a byte offset)
+            o = dialects.load(config, bytes.fromhex(case["bytes_hex"]),
+                              lexer_fn)
+        else:
+            o = dialects.load(config, case["text"], lexer_fn)
         if out is not None:
             out.evals += 1
             out.inc("outcome." + (o.kind if o.documented() else o.brief()))
@@ -198,6 +204,17 @@ class C06(Property):
                     if d:
                         out.inc("probe.eof-inside-block")
                 do({"config": config, "text": t, "faulted": True}, k > 10)
+        if "trunc" in kinds and not text.isascii():
+            data = text.encode()
+            for k in sorted(set(rng.randrange(len(data) + 1)
+                                for _ in range(25))):
+                out.inc("fault.bytes-truncate")
+                try:
+                    data[:k].decode()
+                except UnicodeDecodeError:
+                    out.inc("probe.cut-inside-multibyte-character")
+                do({"config": config, "text": text[:k],
+                    "bytes_hex": data[:k].hex(), "faulted": True}, k > 10)
         if "chars" in kinds:
             for _ in range(rng.randint(10, 40)):
                 t = text
@@ -291,6 +308,16 @@ class C06(Property):
             for cut in (n // 2, n - n // 4, n - 10, n - 1):
                 if 0 < cut < n:
                     yield dict(case, text=text[:cut])
+            return
+        if "bytes_hex" in case:
+            data = bytes.fromhex(case["bytes_hex"])
+            m = len(data)
+            size = m // 2
+            while size >= 1:
+                for start in range(0, m - size + 1, size):
+                    yield dict(case, bytes_hex=(data[:start] +
+                                                data[start + size:]).hex())
+                size //= 2
             return
         size = n // 2
         while size >= 1:
